@@ -52,7 +52,7 @@ def main():
     res = {'exc': None}
     try:
         tm = testing.TestManager(statistics.PassStatistic(), case['script'], 10, False, case['test_cases'], 1, True, True,
-                                 False, False, False, None, False, None, None, None, 1.0)
+                                 False, False, False, None, False, case.get('also_interesting'), None, None, 1.0)
         cv = CVise(tm, False)
         cv.reduce({'first': [], 'main': [], 'last': []}, False)
     except BaseException as e:
